@@ -66,6 +66,7 @@ def run_tlc(module, cfg, cwd=None, workers=8, extra=None, env=None, timeout=1800
     meta = metadir or os.path.join(OUT, "tlc-meta-%d-%d" % (os.getpid(), int(time.time() * 1000) % 100000))
     cmd = ["java", "-XX:+UseParallelGC"]
     cmd += jvm or ["-Xmx8g"]
+    cmd += ["-DTLA-Library=" + SPEC]
     cmd += ["-cp", TLA_CP + ":" + SPEC, "tlc2.TLC", "-metadir", meta, "-cleanup", "-noGenerateSpecTE",
             "-workers", str(workers), "-config", cfg]
     if not check_deadlock:
